@@ -62,14 +62,14 @@ claimed.update({
    text="Decides the proof-assembly half structurally: one info leaf by leaf_index; L1 branch proves against its MainnetExitRoot; L2 branch proves against the local exit root looked up under its RollupExitRoot; rollup proof for (network, RollupExitRoot); response carries those and the same leaf; every lookup error ends the handler before the 200 answer. The two binary searches (monotonicity + midpoint arithmetic over runtime data) are declined.",
    ref="4 C12", technique="static analysis: value provenance with bound SSA values, dominance"),
  "C15": dict(category="other",
-   text="Decides structural necessary conditions: the single InjectGER call is reachable only after IsGERInjected of the same value returned (false, nil); that value is GetLatestInfoUntilBlock(sampled finalized block).GlobalExitRoot of a successful query; finality sampled with the configured block tag whose only writer is the constructor; success returns retry target 0 (next tick samples again). Liveness under arbitrary relative speeds is not decided.",
+   text="Decides structural necessary conditions: the single InjectGER call is reachable only after IsGERInjected of the same value returned (false, nil); that value is GetLatestInfoUntilBlock(sampled finalized block).GlobalExitRoot of a successful query; finality sampled with the configured block tag whose only writer is the constructor; success returns retry target 0 (next tick samples again) and the target is stored only on the success edge or for ErrBlockNotProcessed; the store's 'latest info until block n' is the last leaf in chain order with block_num <= n, bound to n, asked only once block n was processed. Liveness under arbitrary relative speeds is not decided.",
    ref="4 C15", technique="static analysis: dominance, provenance, who-may-call/write"),
  "C17": dict(category="other",
    text="Decides the comparison-only part exactly: both Range filters keep an element iff fromBlock <= BlockNum <= toBlock (all written forms of the comparisons recognised), append the element itself in source order, copy every other field; sub-range precondition; every cut keeps the first block; shrink step, loop variable and exit conditions of limitCertSize; last-block clamp; the shape of BlockRange.Gap's touch test (no wrapping arithmetic in conditions, saturating predecessor, empty iff touching). Maximality, size monotonicity (float) and the numeric values of non-empty gaps are declined.",
    ref="4 C17", technique="static analysis: exact comparison/guard analysis on SSA, provenance"),
  "C19": dict(category="other",
-   text="Decides 'the same value everywhere' structurally: at each of the four encoding sites the encoder's arguments are MainnetFlag, RollupIndex, LeafIndex of one object in order; the decoder's results go to the same-named fields; each carrier uses the encoding its consumer expects; any new encoder call site or hand-rolled composition is reported. Round-trip and bit layout of GenerateGlobalIndex / DecodeGlobalIndex (byte-length arithmetic on big.Int) are declined.",
-   ref="4 C19", technique="static analysis: who-may-call enumeration, argument provenance"),
+   text="Decides 'the same value everywhere' structurally: at each of the four encoding sites the encoder's arguments are MainnetFlag, RollupIndex, LeafIndex of one object in order; the decoder's results go to the same-named fields; each carrier uses the encoding its consumer expects; any new encoder call site or hand-rolled composition is reported. The bit layout is decided through its premises: the bytes the encoder builds on each edge of the mainnet flag (01|0000|leaf, rollup|leaf), no reuse of the scratch buffer before it is copied, the decoder's flag edge / slices in recognised forms, the left-padded big-endian helper; both signed commitments carry one element per claim built from that claim's own index. The arithmetic step from these premises to decode(encode(x)) = x is a pen-and-paper argument in DESIGN, not machine-checked.",
+   ref="4 C19", technique="static analysis: who-may-call enumeration, argument provenance, per-edge byte-layout evaluation, list construction analysis"),
  "C20": dict(category="other",
    text="Decides structural necessary conditions: data[i] positions and method selectors agree with the bridge ABI read from the binding packages; found only on index equality, no write before it, IsMessage only when found; findCall offers / returns / expands a frame only past its own Err == nil test (inductive non-reverted traversal) and only bridge frames; exhausted search is an error; the claim is recorded only after its calldata was found. ABI decoding (go-ethereum) is trusted.",
    ref="4 C20", technique="static analysis: ABI cross-check (selectors via keccak of ABI signatures), dominance, provenance"),
